@@ -1,4 +1,5 @@
 import Varint.Bridge.FOR
+import Varint.Bridge.FORDec
 import Varint.Bridge.RLE
 import Varint.Lemmas.PFOR
 import Varint.Lemmas.RLEH
@@ -138,5 +139,20 @@ theorem pfor_header_true (xs : List Nat) (g : PFOR.Good xs) (t : Nat) (rest : Li
         xs.length * (PFOR.compute xs t).width)) =
       .ok (PFOR.compute xs t).exceptionCount (Tagged.len (PFOR.compute xs t).exceptionCount) :=
   ⟨PFOR.hdr_min xs g t rest, PFOR.hdr_count xs g t rest, PFOR.hdr_exceptionCount xs g t rest⟩
+
+
+/-- **the FOR header accessors on the translated C tell the truth** (`varintFORGetMinValue`, `varintFORGetCount`,
+    `varintFORGetOffsetWidth`, machine-translated): on the encoding of any non-empty array of 64-bit values they return
+    the array's minimum, its element count and the width the analysis chose -/
+theorem c_for_accessors_true (xs : List Nat) (g : FOR.Good xs) (rest : List Nat) (hrest : ∀ b ∈ rest, b < 256) :
+    Varint.Gen.C.forGetMinValue (Varint.Bridge.Tagged.bufOf (FOR.enc xs ++ rest)) = (FOR.analyze xs).minValue ∧
+    Varint.Gen.C.forGetCount (Varint.Bridge.Tagged.bufOf (FOR.enc xs ++ rest)) = xs.length ∧
+    Varint.Gen.C.forGetOffsetWidth (Varint.Bridge.Tagged.bufOf (FOR.enc xs ++ rest)) = (FOR.analyze xs).offsetWidth := by
+  have hb : ∀ b ∈ FOR.enc xs ++ rest, b < 256 := by
+    intro b hb
+    rcases List.mem_append.mp hb with hb | hb
+    · exact Varint.Bridge.FORDec.enc_lt xs g b hb
+    · exact hrest b hb
+  exact Varint.Bridge.FORDec.forAccessors_eq _ hb _ (for_accessor_true xs g rest)
 
 end Varint.Props.C16
